@@ -97,6 +97,9 @@ var repeat int = -1
 // advertising spoofing for target LLAs.
 func (h *Handler6) ProcessPacket(pkt packet.Frame) (err error) {
 	ip6Frame := pkt.IP6()
+	if ip6Frame == nil { // ICMPv6 carried by a packet that is not IPv6 (e.g. IPv4 with protocol 58)
+		return packet.ErrParseFrame
+	}
 	icmp6Frame := packet.ICMP(pkt.Payload())
 
 	if err := icmp6Frame.IsValid(); err != nil {
